@@ -133,6 +133,22 @@ pub fn extensions(t: &Term) -> Vec<Term> {
         names.sort();
         names.windows(2).all(|w| w[0] != w[1])
     };
+    // a pair that renames a name to itself, alone and next to a real renaming
+    if n >= 1 {
+        let same = (avail[0].clone(), avail[0].clone());
+        out.push(Term::Rename(Box::new(t.clone()), vec![same.clone()]));
+        if n >= 2 {
+            for tj in ["x", "A"] {
+                let p2 = vec![same.clone(), (avail[1].clone(), tj.to_string())];
+                if admissible(&p2) {
+                    out.push(Term::Rename(Box::new(t.clone()), p2.clone()));
+                    if n >= 3 {
+                        out.push(Term::Rename(Box::new(t.clone()), vec![p2[1].clone(), (avail[n - 1].clone(), avail[n - 1].clone())]));
+                    }
+                }
+            }
+        }
+    }
     for i in 0..n {
         for ti in &targets {
             if *ti == avail[i] {
@@ -341,7 +357,7 @@ pub fn run(ctx: &Ctx) {
          with every admissible renaming of one or two names (targets among the available names and two fresh ones, incl. \
          swaps and chains, targets differing from an available name only in letter case), prefix with three prefixes \
          (two differing only in case); several declarations on one interpreter (two prefixes over one library; builtins imported under other names stay eqv? to the originals) rebinding names to values that are = / \
-         equal?-like the old ones (1/2 and 0.5, two closures of one lambda); plus declarations with two import sets. Each declaration is evaluated \
+         equal?-like the old ones (1/2 and 0.5, two closures of one lambda); plus declarations with two and three import sets, and the bare library next to a depth-2 term over it; renamings include pairs that rename a name to itself. Each declaration is evaluated \
          on three fresh interpreters in fresh threads (independent hash seeds) with an empty root frame, whose bindings \
          afterwards must be exactly the model's (names and values) and identical across runs; the three runs write the \
          identifier lists and renaming pairs in three different orders (as enumerated, reversed, rotated). Non-trivial = depth >= 2 with \
@@ -387,6 +403,22 @@ pub fn run(ctx: &Ctx) {
             None
         } else {
             Some(judge(&[a, b, c]))
+        }
+    });
+    // the bare library next to a nested term over the same library, in both orders
+    let d2terms: Vec<&Term> = terms.iter().filter(|t| depth(t) == 2).collect();
+    let m = d2terms.len() as u64;
+    let stride_b = ctx.tier.pick((m / 1200).max(1), (m / 30_000).max(1));
+    ctx.indexed("bare-library-and-nested-term", 2 * m, stride_b, |i| {
+        let t = d2terms[(i % m) as usize];
+        let lib = Term::Lib;
+        let conflict = model(t).iter().any(|(n1, v1)| exports().iter().any(|(n2, v2)| n1 == n2 && v1 != v2));
+        if conflict {
+            None
+        } else if i / m == 0 {
+            Some(judge(&[&lib, t]))
+        } else {
+            Some(judge(&[t, &lib]))
         }
     });
     ctx.indexed("two-import-sets", n * n, stride, |i| {
